@@ -287,7 +287,7 @@ impl UnitPropagate {
 //%% @rewrite 1 /for lit in clause\.iter\(\) \{/ => let mut lit__i: usize = 0; while lit__i < clause.len() { let lit = &clause[lit__i]; lit__i += 1;
 //%% @rewrite 1 /let mut remaining_lits = clause\.iter\(\)\.filter\(\|x\| (.*?)\);\n/ => let mut remaining_lits: Vec<&Literal> = Vec::new(); let mut flt__i: usize = 0; while flt__i < clause.len() { let x = &clause[flt__i]; flt__i += 1; if \1 { remaining_lits.push(x); } }\n
 //%% @rewrite 1 /remaining_lits\.clone\(\)\.count\(\)/ => remaining_lits.len()
-//%% @rewrite 1 /\*remaining_lits\.clone\(\)\.next\(\)\.unwrap\(\)/ => *remaining_lits[0]
+//%% @rewrite 1..3 /remaining_lits\.clone\(\)\.next\(\)\.unwrap\(\)/ => remaining_lits[0]
 //%% @rewrite 1..5 /remaining_lits\.next\(\)\.unwrap\(\)/ => remaining_lits[0]
 //%% @rewrite 0..4 /remaining_lits\.nth\(1\)\.unwrap\(\)/ => remaining_lits[1]
 //%% @rewrite 1 /self\.watch_list_pos\[candidate_unwatched\]\.contains\(&prev_watcher\)/ => verif_vec_contains(&self.watch_list_pos[candidate_unwatched], &prev_watcher)
